@@ -279,7 +279,9 @@ def mk_prefix2(pfx, n):
             return 'skip'
         from emmet.extract_abbreviation import extract_abbreviation
         return 'twin' if extract_abbreviation(line, pos, {'prefix': pfx}) is not None else True
-    return {'fn': h, 'twin': twin, 'witnesses': [{'line': (pfx + 'a')[:n], 'pos': n}, {'line': (pfx[1:] + 'ab')[:n], 'pos': n}],
+    # with len(line) <= len(prefix) nothing can follow the prefix: every result is None and a twin that waits for a result
+    # cannot be refuted - the job then only checks that nothing is invented (no twin)
+    return {'fn': h, 'twin': twin if n > len(pfx) else None, 'witnesses': [{'line': (pfx + 'a')[:n], 'pos': n}, {'line': (pfx[1:] + 'ab')[:n], 'pos': n}],
             'assumptions': ['prefix %r; line any ASCII string of <=%d characters; pos any integer' % (pfx, n)],
             'functions': ['extract_abbreviation.get_start_offset', 'consume_list', 'consume_pair']}
 
